@@ -1,7 +1,7 @@
 """Per-property catalogue and harness schedule (DESIGN.md section 3)."""
 import random
 
-from .core import Case, Harness, STUB_MEMCHR
+from .core import Case, Harness, PackedCase, STUB_MEMCHR, STUB_PF
 
 UN, AN, EITHER = 0, 1, 2
 
@@ -34,9 +34,11 @@ def base_unwind(case, facts, n, extra=0):
     return max(n + 2, len(case.pats) + 1, case.maxlen + 1, f["dfa_match_rows"] + 1) + extra
 
 
-def unsat_ok_find(case):
+def unsat_ok_find(case, an=0):
     """Witnesses that cannot be satisfied for this case by construction."""
     out = set()
+    if an == 1:
+        out.add("match after skipping bytes")
     if any(len(x) == 0 for x in case.pats):
         out |= {"no match is found", "match after skipping bytes", "one item then exhaustion"}
     return out
@@ -54,7 +56,7 @@ def h_find(prop, case, facts, kind="dfa", n=6, an=UN, timeout=600, tag=""):
     meta = dict(template="find", kind=kind, N=n, anchored_mode=["unanchored", "anchored", "either"][an],
                 symbolic=["haystack bytes (all 256 values)", "span start/end"] + (["anchored flag"] if an == EITHER else []))
     return Harness(name, case, body, base_unwind(case, facts, n), schema, meta, timeout=timeout,
-                   functions=F_SEARCH + F_KIND[kind], unsat_ok=unsat_ok_find(case))
+                   functions=F_SEARCH + F_KIND[kind], unsat_ok=unsat_ok_find(case, an))
 
 
 def h_iter2(prop, case, facts, kind="dfa", n=5, an=UN, timeout=900):
@@ -66,7 +68,417 @@ def h_iter2(prop, case, facts, kind="dfa", n=5, an=UN, timeout=900):
                 symbolic=["haystack bytes", "span start (induction variable)", "span end"],
                 induction="iterator state after any next() is (m.end, Some(m.end)); two calls from a symbolic start cover the fresh and every reachable non-fresh state")
     return Harness(name, case, body, base_unwind(case, facts, n), schema, meta, timeout=timeout,
-                   functions=F_SEARCH + F_ITER + F_KIND[kind], unsat_ok=unsat_ok_find(case))
+                   functions=F_SEARCH + F_ITER + F_KIND[kind], unsat_ok=unsat_ok_find(case, an))
+
+
+
+F_OV = ["automaton::try_find_overlapping_fwd", "automaton::try_find_overlapping_fwd_imp",
+        "automaton::next_overlapping_match", "automaton::get_match", "OverlappingState::{start,get_match}"]
+AMODE = ["unanchored", "anchored", "either"]
+
+
+def _body(case, kind, call):
+    return "    let a = <%s as Case>::%s();\n    %s;\n    core::mem::forget(a);" % (case.mod, getter(kind), call)
+
+
+def max_occurrences(case, n):
+    """Upper bound on the number of occurrences in any haystack of n bytes."""
+    tot = 0
+    for p in case.pats:
+        if len(p) <= n:
+            tot += n - len(p) + 1
+    return tot
+
+
+def h_ov_drain(prop, case, facts, kind="dfa", n=3, an=UN, kcap=10, timeout=900, span=False):
+    k = min(max_occurrences(case, n) + 1, kcap)
+    if an == AN:
+        # anchored: every match starts at the span start, at most one per pattern
+        k = min(k, len([p for p in case.pats if len(p) <= n]) + 1)
+    name = "h_ovdrain_%s_%s_n%d_k%d_a%d_s%d" % (case.name, kind, n, k, an, int(span))
+    body = _body(case, kind, "t::ov_drain::<%s, _, %d, %d, %d, %s>(&a)" % (case.mod, n, k, an, "true" if span else "false"))
+    schema = [("hay", ("bytes", n))] + ([("s", "usize"), ("e", "usize")] if span else []) + ([("anchored", "bool")] if an == EITHER else [])
+    fixed = {"anchored": int(an == AN)}
+    if not span:
+        fixed.update(s=0, e=n)
+    meta = dict(template="ov_drain", replay_template="overlapping", kind=kind, N=n, K=k, anchored_mode=AMODE[an],
+                symbolic=["haystack bytes"] + (["span"] if span else []), fixed_inputs=fixed,
+                note="haystacks with more than K-1 occurrences are outside this harness (assume)")
+    unsat = set()
+    if any(len(x) == 0 for x in case.pats) and (not span or an == UN):
+        unsat.add("no occurrence")
+    if an == AN:
+        # anchored: all matches start at the span start, so these depend on the pattern list
+        unsat |= {"two consecutive matches with the same end", "three or more overlapping matches"}
+    return Harness(name, case, body, max(base_unwind(case, facts, n), k + 1), schema, meta, timeout=timeout,
+                   functions=F_OV + F_KIND[kind], unsat_ok=unsat)
+
+
+def h_ov_step(prop, case, facts, kind="dfa", n=5, timeout=900):
+    name = "h_ovstep_%s_%s_n%d" % (case.name, kind, n)
+    body = _body(case, kind, "t::ov_step::<%s, _, %d>(&a)" % (case.mod, n))
+    schema = [("hay", ("bytes", n)), ("s", "usize"), ("e", "usize"), ("at", "usize"), ("i", "usize")]
+    meta = dict(template="ov_step", replay_template="overlapping", kind=kind, N=n, anchored_mode="unanchored",
+                symbolic=["haystack bytes", "span", "position of the current match state", "number of its matches already reported"],
+                fixed_inputs={"anchored": 0},
+                induction="pre-state = (state after hay[s..=at] is a match state, i>=1 of its matches reported); one call yields the specification's next occurrence")
+    return Harness(name, case, body, base_unwind(case, facts, n), schema, meta, timeout=timeout,
+                   functions=F_OV + F_KIND[kind])
+
+
+def h_ov_first(prop, case, facts, kind="dfa", n=5, timeout=900):
+    name = "h_ovfirst_%s_%s_n%d" % (case.name, kind, n)
+    body = _body(case, kind, "t::ov_first::<%s, _, %d>(&a)" % (case.mod, n))
+    schema = [("hay", ("bytes", n)), ("s", "usize"), ("e", "usize"), ("i", "usize")]
+    meta = dict(template="ov_first", replay_template="overlapping", kind=kind, N=n, anchored_mode="unanchored",
+                symbolic=["haystack bytes", "span", "number of start-state matches already reported"],
+                fixed_inputs={"anchored": 0})
+    unsat = {"no match at all"} if any(len(x) == 0 for x in case.pats) else set()
+    return Harness(name, case, body, base_unwind(case, facts, n), schema, meta, timeout=timeout,
+                   functions=F_OV + F_KIND[kind], unsat_ok=unsat)
+
+
+def h_ismatch(prop, case, facts, kind="dfa", n=6, an=EITHER, timeout=900):
+    name = "h_ismatch_%s_%s_n%d_a%d" % (case.name, kind, n, an)
+    body = _body(case, kind, "t::ismatch::<%s, _, %d, %d>(&a)" % (case.mod, n, an))
+    schema = [("hay", ("bytes", n)), ("s", "usize"), ("e", "usize")] + ([("anchored", "bool")] if an == EITHER else [])
+    meta = dict(template="ismatch", replay_template="is_match", kind=kind, N=n, anchored_mode=AMODE[an],
+                symbolic=["haystack bytes", "span"] + (["anchored flag"] if an == EITHER else []),
+                fixed_inputs={} if an == EITHER else {"anchored": int(an == AN)})
+    unsat = set()
+    if any(len(x) == 0 for x in case.pats):
+        unsat |= {"no occurrence exists"}
+    if case.mk == "std" or any(len(x) == 0 for x in case.pats):
+        unsat |= {"earliest stops before the normal match ends"}
+    return Harness(name, case, body, base_unwind(case, facts, n), schema, meta, timeout=timeout,
+                   functions=F_SEARCH + F_KIND[kind], unsat_ok=unsat)
+
+
+def h_span(prop, case, facts, kind="dfa", n=6, an=EITHER, timeout=900):
+    name = "h_span_%s_%s_n%d_a%d" % (case.name, kind, n, an)
+    body = _body(case, kind, "t::span_rel::<%s, _, %d, %d>(&a)" % (case.mod, n, an))
+    schema = [("hay", ("bytes", n)), ("other", ("bytes", n)), ("s", "usize"), ("e", "usize")] + ([("anchored", "bool")] if an == EITHER else [])
+    meta = dict(template="span_rel", replay_template="span", kind=kind, N=n, anchored_mode=AMODE[an],
+                symbolic=["haystack bytes", "second haystack (bytes outside the span)", "span", "anchored flag"],
+                fixed_inputs={} if an == EITHER else {"anchored": int(an == AN)})
+    unsat = {"no match in the span"} if any(len(x) == 0 for x in case.pats) else set()
+    return Harness(name, case, body, base_unwind(case, facts, n), schema, meta, timeout=timeout,
+                   functions=F_SEARCH + F_KIND[kind], unsat_ok=unsat)
+
+
+def h_span_ov(prop, case, facts, kind="dfa", n=5, timeout=900):
+    name = "h_spanov_%s_%s_n%d" % (case.name, kind, n)
+    body = _body(case, kind, "t::span_rel_ov::<%s, _, %d>(&a)" % (case.mod, n))
+    schema = [("hay", ("bytes", n)), ("other", ("bytes", n)), ("s", "usize"), ("e", "usize")]
+    meta = dict(template="span_rel_ov", replay_template="span_ov", kind=kind, N=n, K=2, anchored_mode="unanchored",
+                symbolic=["haystack bytes", "second haystack", "span"], fixed_inputs={"anchored": 0})
+    return Harness(name, case, body, base_unwind(case, facts, n), schema, meta, timeout=timeout,
+                   functions=F_OV + F_KIND[kind])
+
+
+def h_recipe(prop, case, facts, kind="dfa", n=6, timeout=900):
+    name = "h_recipe_%s_%s_n%d" % (case.name, kind, n)
+    body = _body(case, kind, "t::recipe::<%s, _, %d>(&a)" % (case.mod, n))
+    schema = [("hay", ("bytes", n)), ("n", "usize")]
+    meta = dict(template="recipe", kind=kind, N=n, anchored_mode="unanchored",
+                symbolic=["haystack bytes", "haystack length"])
+    unsat = {"recipe finds nothing"} if any(len(x) == 0 for x in case.pats) else set()
+    return Harness(name, case, body, base_unwind(case, facts, n), schema, meta, timeout=timeout,
+                   functions=F_SEARCH + F_KIND[kind] + ["the search recipe from the Automaton trait documentation"],
+                   unsat_ok=unsat)
+
+
+def chunks(lo, hi, size):
+    i = lo
+    while i < hi:
+        yield (i, min(i + size, hi))
+        i += size
+
+
+def h_sim(prop, case, facts, pair="cd", an=UN, group=8, timeout=900):
+    """Simulation-step harnesses for every row of the proposed relation."""
+    f = facts[case.name]
+    rel = f["rel_a"] if an == AN else f["rel_u"]
+    hs = []
+    nn = {st[0]: st for st in f["nnfa_states"]}
+    cn = {st[0]: st for st in f["cnfa_states"]}
+    for (lo, hi) in chunks(0, len(rel), group):
+        name = "h_sim%s_%s_a%d_r%d_%d" % (pair, case.name, an, lo, hi)
+        body = "    t::sim_%s::<%s, %d, %d, %d>();" % (pair, case.mod, an, lo, hi)
+        # loop bounds: relation scan, rebuild rows, and the real next_state loops
+        need = [len(rel) + 1, f["dfa_match_rows"] + 1, hi - lo + 1, len(case.pats) + 1]
+        if pair in ("nd", "nc"):
+            # sparse list walks (bounded by the longest non-dense list) and match list walks
+            mx = max([st[1] for st in f["nnfa_states"] if not st[2]] + [st[3] for st in f["nnfa_states"]] + [1])
+            need.append(mx + 2)
+            need.append(max(st[4] for st in f["nnfa_states"]) + 3)  # failure loop
+        if pair in ("cd", "nc"):
+            need.append(max([(st[2] + 3) // 4 for st in f["cnfa_states"] if st[1] == 0] + [1]) + 2)
+            need.append(max(st[5] for st in f["nnfa_states"]) + 3)  # failure loop <= depth + 1
+            need.append(max(st[3] for st in f["nnfa_states"]) + 2)
+        unwind = max(need)
+        schema = []
+        for i in range(lo, hi):
+            schema += [("b%d" % i, "u8"), ("k%d" % i, "usize")]
+        meta = dict(template="sim_" + pair, replay_template="sim", pair=pair, rows=[lo, hi], anchored_mode=AMODE[an],
+                    states=hi - lo, symbolic=["input byte (per related state)", "match list index"],
+                    fixed_inputs={"anchored": int(an == AN), "pair": pair, "lo": lo, "hi": hi},
+                    induction="relation R proposed by the native product walk; for every pair in R and every byte the successors are in R and all observations agree; with related start states (sim_meta) this covers haystacks of every length")
+        fn = {"cd": F_KIND["cnfa"] + F_KIND["dfa"], "nd": F_KIND["nnfa"] + F_KIND["dfa"], "nc": F_KIND["nnfa"] + F_KIND["cnfa"]}[pair]
+        hs.append(Harness(name, case, body, unwind, schema, meta, timeout=timeout, functions=fn + ["ByteClasses::get"],
+                          covers_required=False))
+    return hs
+
+
+def h_sim_meta(prop, case, facts, timeout=600):
+    f = facts[case.name]
+    name = "h_simmeta_%s" % case.name
+    body = "    t::sim_meta::<%s>();" % case.mod
+    rel = max(len(f["rel_a"]), len(f["rel_u"]))
+    mx = max([st[1] for st in f["nnfa_states"] if not st[2]] + [st[3] for st in f["nnfa_states"]] + [1])
+    unwind = max(rel + 1, f["dfa_match_rows"] + 1, mx + 2, len(case.pats) + 1, 8)
+    meta = dict(template="sim_meta", replay_template="sim_meta", symbolic=["anchoring argument", "byte", "pattern id", "match index"])
+    unsat = set() if case.sk in ("both", "an") else {"anchored start supported"}
+    return Harness(name, case, body, unwind, [], meta, timeout=timeout, unsat_ok=unsat,
+                   functions=["start_state/is_*/match_*/pattern_len/patterns_len/min_pattern_len/max_pattern_len/match_kind of all three automaton types"])
+
+
+
+F_AC = ["AhoCorasick::{try_find,try_find_iter,try_find_overlapping,try_find_overlapping_iter}",
+        "ahocorasick::enforce_anchored_consistency", "impl Automaton for Arc<dyn AcAutomaton>",
+        "automaton::{FindIter::new,try_find_overlapping_iter gates}"]
+SKN = {"both": 0, "un": 1, "an": 2}
+
+
+def ac_ctor(case, kind):
+    return "aho_corasick::verif::ac::from_%s(<%s as Case>::%s(), aho_corasick::verif::ac::sk_from_u8(%d))" % (
+        kind, case.mod, kind, SKN[case.sk])
+
+
+def h_reject_fallible(prop, case, facts, kind, n=2, timeout=900):
+    name = "h_rejf_%s_%s" % (case.name, kind)
+    body = "    let ac = %s;\n    t::reject_fallible::<%s, %d>(&ac);\n    core::mem::forget(ac);" % (ac_ctor(case, kind), case.mod, n)
+    schema = [("hay", ("bytes", n)), ("anchored", "bool")]
+    meta = dict(template="reject_fallible", replay_template="reject", kind=kind, N=n,
+                symbolic=["haystack bytes", "requested anchoring"], apis=["try_find", "try_find_iter", "try_find_overlapping", "try_find_overlapping_iter"])
+    return Harness(name, case, body, max(base_unwind(case, facts, n), 8), schema, meta, timeout=timeout,
+                   functions=F_AC + F_SEARCH + F_ITER + F_OV + F_KIND[kind])
+
+
+def h_reject_sr(prop, case, facts, kind, n=2, timeout=900):
+    name = "h_rejsr_%s_%s" % (case.name, kind)
+    body = "    let ac = %s;\n    t::reject_stream_replace::<%s, %d>(&ac);\n    core::mem::forget(ac);" % (ac_ctor(case, kind), case.mod, n)
+    schema = [("hay", ("bytes", n))]
+    meta = dict(template="reject_stream_replace", replay_template="reject_sr", kind=kind, N=n,
+                symbolic=["stream bytes"], apis=["try_stream_find_iter", "try_replace_all_with_bytes"])
+    return Harness(name, case, body, max(base_unwind(case, facts, n), case.maxlen + n + 4, 8), schema, meta, timeout=timeout,
+                   functions=["AhoCorasick::{try_stream_find_iter,try_replace_all_with_bytes}", "StreamChunkIter::new", "Buffer::new"] + F_KIND[kind],
+                   covers_required=False)
+
+
+API_NAMES = {0: "find", 1: "find_iter", 2: "find_overlapping", 3: "find_overlapping_iter", 6: "is_match"}
+
+
+def reject_possible(case, api, rej):
+    """Is there a requested anchoring for which the predicate equals rej?"""
+    sk, mk = case.sk, case.mk
+    out = False
+    for an in (False, True):
+        a = (sk == "un" and an) or (sk == "an" and not an)
+        b = api in (2, 3) and mk != "std"
+        c = api == 3 and an
+        if (a or b or c) == rej:
+            out = True
+    return out
+
+
+def h_reject_infallible(prop, case, facts, kind, api, rej, n=2, timeout=900):
+    name = "h_reji_%s_%s_%s_%s" % (case.name, kind, API_NAMES[api], "rej" if rej else "acc")
+    body = "    let ac = %s;\n    t::reject_infallible::<%s, %d, %d, %s>(&ac);\n    core::mem::forget(ac);" % (
+        ac_ctor(case, kind), case.mod, n, api, "true" if rej else "false")
+    schema = [("hay", ("bytes", n)), ("anchored", "bool")]
+    meta = dict(template="reject_infallible", replay_template="reject_inf", kind=kind, N=n, api=API_NAMES[api],
+                half="rejected configurations: must panic, never return" if rej else "accepted configurations: must not panic",
+                symbolic=["haystack bytes", "requested anchoring"], fixed_inputs={"api": API_NAMES[api], "expect_panic": int(rej)})
+    return Harness(name, case, body, max(base_unwind(case, facts, n), 8), schema, meta, timeout=timeout,
+                   functions=F_AC + ["AhoCorasick::" + API_NAMES[api]] + F_KIND[kind],
+                   should_panic=rej, must_unsat={"returned normally"} if rej else (), covers_required=not rej)
+
+
+
+F_RK = ["packed::Searcher::{find_in,find_in_slow}", "packed::rabinkarp::RabinKarp::{find_at,verify,hash,update_hash}",
+        "packed::pattern::{Patterns::get,Pattern::is_prefix,is_prefix,is_equal}", "Match::new"]
+F_TEDDY = ["packed::teddy::builder::Searcher::find", "SlimSSSE3::find", "teddy::generic::Slim<__m128i,N>::{find,find_one,candidate}",
+           "teddy::generic::Teddy::{verify,verify64,verify_bucket}", "Mask::members*", "impl Vector for __m128i (packed::vector)",
+           "Pattern::{is_prefix_raw,is_equal_raw}"]
+STUB_SIMD = [("core::arch::x86_64::_mm_shuffle_epi8", "crate::stubs::pshufb_model"),
+             ("core::arch::x86_64::__cpuid_count", "crate::stubs::cpuid_stub")]
+
+
+def pk_unwind(case, facts, n):
+    f = facts[case.key]
+    return max(n + 2, len(case.pats) + 1, case.maxlen + 1, f["max_bucket"] + 2, f["rk_hash_len"] + 2)
+
+
+def h_pk_find(prop, case, facts, n=6, timeout=900):
+    name = "h_pkfind_%s_n%d" % (case.name, n)
+    body = "    t::pk_find::<%s, %d>();" % (case.mod, n)
+    schema = [("hay", ("bytes", n)), ("s", "usize"), ("e", "usize")]
+    meta = dict(template="pk_find", replay_template="pk_find", kind="packed:" + facts[case.key]["imp"], N=n,
+                symbolic=["haystack bytes (exactly sized allocation)", "span"])
+    return Harness(name, case, body, pk_unwind(case, facts, n), schema, meta, timeout=timeout, functions=F_RK,
+                   stubs=STUB_SIMD if facts[case.key]["teddy_bytes"] else ())
+
+
+def h_pk_iter2(prop, case, facts, n=5, timeout=900):
+    name = "h_pkiter2_%s_n%d" % (case.name, n)
+    body = "    t::pk_iter2::<%s, %d>();" % (case.mod, n)
+    schema = [("hay", ("bytes", n)), ("s", "usize"), ("e", "usize")]
+    meta = dict(template="pk_iter2", replay_template="pk_iter", kind="packed:" + facts[case.key]["imp"], N=n, K=2,
+                symbolic=["haystack bytes", "span start (induction variable)", "span end"])
+    return Harness(name, case, body, pk_unwind(case, facts, n), schema, meta, timeout=timeout,
+                   functions=F_RK + ["packed::FindIter::next"], stubs=STUB_SIMD if facts[case.key]["teddy_bytes"] else ())
+
+
+def h_pk_span(prop, case, facts, n=5, timeout=900):
+    name = "h_pkspan_%s_n%d" % (case.name, n)
+    body = "    t::pk_span::<%s, %d>();" % (case.mod, n)
+    schema = [("hay", ("bytes", n)), ("other", ("bytes", n)), ("s", "usize"), ("e", "usize")]
+    meta = dict(template="pk_span", replay_template="pk_span", kind="packed:" + facts[case.key]["imp"], N=n,
+                symbolic=["haystack bytes", "second haystack", "span"])
+    return Harness(name, case, body, pk_unwind(case, facts, n), schema, meta, timeout=timeout, functions=F_RK,
+                   stubs=STUB_SIMD if facts[case.key]["teddy_bytes"] else ())
+
+
+def h_pk_teddy(prop, case, facts, length, off, w, pad, timeout=2400, mem_gb=20):
+    f = facts[case.key]
+    name = "h_pkteddy_%s_l%d_o%d_w%d_p%02x" % (case.name, length, off, w, pad)
+    body = "    t::pk_teddy::<%s, %d, %d, %d, %d>();" % (case.mod, length, off, w, pad)
+    schema = [("w", ("bytes", w)), ("s", "usize")]
+    meta = dict(template="pk_teddy", replay_template="pk_teddy", kind="packed:" + f["imp"], LEN=length, OFF=off, W=w,
+                PAD=pad, fixed_inputs={"len": length, "off": off, "pad": pad},
+                symbolic=["%d window bytes at offset %d of a %d-byte exactly sized haystack" % (w, off, length), "span start <= window offset"],
+                note="bytes outside the window are the fixed pad byte: arbitrary multi-match contents of a full vector are outside this harness")
+    # loops: window copy w, oracle start loop length+1 ...
+    unwind = max(length + 2, len(case.pats) + 1, case.maxlen + 1, 18)
+    return Harness(name, case, body, unwind, schema, meta, timeout=timeout, mem_gb=mem_gb,
+                   functions=F_TEDDY + F_RK, stubs=STUB_SIMD)
+
+
+
+F_STREAM = ["automaton::StreamChunkIter::{next,get_match_chunk,get_non_match_chunk,get_pre_roll_non_match_chunk,get_eof_non_match_chunk,get_match}",
+            "util::buffer::Buffer::{buffer,min_buffer_len,free_buffer,fill,roll}", "automaton::get_match"]
+
+
+def h_stream_step(prop, case, facts, kind="dfa", t=6, spare=1, fault=False, timeout=1500):
+    cap = case.maxlen + spare
+    name = "h_sstep_%s_%s_t%d_cap%d_f%d" % (case.name, kind, t, cap, int(fault))
+    body = _body(case, kind, "t::stream_step::<%s, _, %d, %d, %s>(&a)" % (case.mod, t, cap, "true" if fault else "false"))
+    schema = []
+    meta = dict(template="stream_step", kind=kind, T=t, cap=cap, fault=fault,
+                symbolic=["stream bytes", "iterator pre-state under Inv (reader offset, buffer end, buffer_pos, buffer_reported_pos, end of last match)",
+                          "size of every read() (the schedule)"] + (["index of the failing read() call"] if fault else []),
+                induction="one next() from every state satisfying Inv yields the next piece of the specification's chunk sequence and re-establishes Inv; the initial state satisfies Inv trivially, so the claim covers streams of any length over this automaton, buffer capacity cap and pattern list",
+                environment_stubs=["impl Read returning a symbolic count in 1..=min(remaining, buf.len()), 0 only at end of data"])
+    unwind = max(base_unwind(case, facts, t), cap + 2, t + 3)
+    return Harness(name, case, body, unwind, schema, meta, timeout=timeout, mem_gb=20, functions=F_STREAM + F_KIND[kind],
+                   unsat_ok=set())
+
+
+def h_stream_run(prop, case, facts, kind="dfa", t=3, timeout=1500):
+    k = t + 1
+    name = "h_srun_%s_%s_t%d" % (case.name, kind, t)
+    body = _body(case, kind, "t::stream_run::<%s, _, %d, %d>(&a)" % (case.mod, t, k))
+    meta = dict(template="stream_run", kind=kind, T=t, K=k, cap=case.maxlen + 1,
+                symbolic=["stream bytes", "size of every read()"], note="complete run through the real constructor (initial state)")
+    unwind = max(base_unwind(case, facts, t), case.maxlen + 3, t + 3, k + 1)
+    return Harness(name, case, body, unwind, [], meta, timeout=timeout, mem_gb=20,
+                   functions=["Automaton::try_stream_find_iter", "StreamChunkIter::new", "StreamFindIter::next", "Buffer::new"] + F_STREAM + F_KIND[kind])
+
+
+def h_stream_replace(prop, case, facts, kind="dfa", t=3, wfault=False, timeout=1800):
+    w = 2 * t + 2
+    name = "h_srepl_%s_%s_t%d_wf%d" % (case.name, kind, t, int(wfault))
+    body = _body(case, kind, "t::stream_replace::<%s, _, %d, %d, %s>(&a)" % (case.mod, t, w, "true" if wfault else "false"))
+    meta = dict(template="stream_replace", kind=kind, T=t, cap=case.maxlen + 1, writer_fault=wfault,
+                symbolic=["stream bytes", "size of every read()"] + (["index of the failing write() call"] if wfault else []),
+                environment_stubs=["impl Read with symbolic read sizes", "impl Write appending to a fixed array" + (", failing at a symbolic call" if wfault else "")])
+    unwind = max(base_unwind(case, facts, t), case.maxlen + 3, w + 2)
+    return Harness(name, case, body, unwind, [], meta, timeout=timeout, mem_gb=20, covers_required=True,
+                   functions=["Automaton::try_stream_replace_all_with", "StreamChunkIter::new"] + F_STREAM + F_KIND[kind])
+
+
+
+F_REPLACE = ["Automaton::try_replace_all_with_bytes", "Automaton::try_replace_all_with", "Automaton::try_find_iter"] + F_ITER
+
+
+def h_replace_bytes(prop, case, facts, kind="dfa", n=2, timeout=1800):
+    w = 2 * n + 4
+    name = "h_replb_%s_%s_n%d" % (case.name, kind, n)
+    body = _body(case, kind, "t::replace_bytes::<%s, _, %d, %d>(&a)" % (case.mod, n, w))
+    schema = [("hay", ("bytes", n)), ("stop", "usize")]
+    meta = dict(template="replace_bytes", kind=kind, N=n, symbolic=["haystack bytes", "call at which the closure returns false"])
+    unsat = set()
+    if n < 2 * max(1, case.minlen) and case.minlen > 0:
+        unsat.add("two replacements")
+    return Harness(name, case, body, max(base_unwind(case, facts, n), w + 1), schema, meta, timeout=timeout, mem_gb=24,
+                   functions=F_REPLACE + F_SEARCH + F_KIND[kind], unsat_ok=unsat)
+
+
+def h_replace_str(prop, case, facts, kind="dfa", n=3, timeout=1800):
+    w = 2 * n + 4
+    name = "h_repls_%s_%s_n%d" % (case.name, kind, n)
+    body = _body(case, kind, "t::replace_str::<%s, _, %d, %d>(&a)" % (case.mod, n, w))
+    schema = [("hay", ("bytes", n)), ("n", "usize")]
+    meta = dict(template="replace_str", kind=kind, N=n, symbolic=["haystack bytes (assumed valid UTF-8)", "haystack length"])
+    return Harness(name, case, body, max(base_unwind(case, facts, n), w + 1, 6), schema, meta, timeout=timeout, mem_gb=24,
+                   functions=F_REPLACE + F_SEARCH + F_KIND[kind] + ["str::is_char_boundary"], covers_required=False)
+
+
+def h_purity(prop, case, facts, kind="dfa", n=4, timeout=1200):
+    name = "h_pure_%s_%s_n%d" % (case.name, kind, n)
+    body = _body(case, kind, "t::purity::<%s, _, %d>(&a)" % (case.mod, n))
+    schema = [("h1", ("bytes", n)), ("h2", ("bytes", n)), ("s1", "usize"), ("e1", "usize"), ("s2", "usize"), ("e2", "usize")]
+    meta = dict(template="purity", kind=kind, N=n, symbolic=["two haystacks", "two spans"],
+                note="sequential histories only; concurrent schedules are outside the claim (Kani has no thread model)")
+    f = facts[case.name]
+    unwind = max(base_unwind(case, facts, n), f["dfa_match_rows"] + 2)
+    unsat = set()
+    return Harness(name, case, body, unwind, schema, meta, timeout=timeout, functions=F_SEARCH + F_OV + F_KIND[kind] + ["Clone for the automaton"],
+                   unsat_ok=unsat)
+
+
+def h_work(prop, case, facts, kind="dfa", n=6, an=EITHER, timeout=1200, stubs=()):
+    name = "h_work_%s_%s_n%d_a%d" % (case.name, kind, n, an)
+    body = _body(case, kind, "t::work::<%s, _, %d, %d, %s>(&a)" % (case.mod, n, an, "true" if kind == "dfa" else "false"))
+    schema = [("hay", ("bytes", n)), ("s", "usize"), ("e", "usize")] + ([("anchored", "bool")] if an == EITHER else [])
+    meta = dict(template="work", kind=kind, N=n, anchored_mode=AMODE[an], symbolic=["haystack bytes", "span", "anchored flag"],
+                hook="counters in the search loops' next_state call sites and the NFAs' failure loops")
+    f = facts[case.name]
+    unwind = base_unwind(case, facts, n)
+    if kind != "dfa":
+        mx = max([st[1] for st in f["nnfa_states"] if not st[2]] + [st[3] for st in f["nnfa_states"]] + [1])
+        unwind = max(unwind, mx + 2, max(st[5] for st in f["nnfa_states"]) + 3,
+                     max([(st[2] + 3) // 4 for st in f["cnfa_states"] if st[1] == 0] + [1]) + 2)
+    unsat = set()
+    if any(len(x) == 0 for x in case.pats) and case.mk == "std":
+        unsat.add("every byte of the span is consumed")
+    h = Harness(name, case, body, unwind, schema, meta, timeout=timeout, functions=F_SEARCH + F_KIND[kind] + ["verif::count hooks"],
+                unsat_ok=unsat, stubs=stubs)
+    if kind == "dfa":
+        pass
+    return h
+
+
+def h_fail_depth(prop, case, facts, timeout=600):
+    f = facts[case.name]
+    nst = len(f["nnfa_states"])
+    name = "h_faildepth_%s" % case.name
+    body = "    t::fail_depth::<%s, 0, %d>();" % (case.mod, nst)
+    meta = dict(template="fail_depth", states=nst, symbolic=["state index"],
+                note="structural lemma: every failure link of the dumped noncontiguous NFA points to a strictly shallower state")
+    return Harness(name, case, body, max(f["dfa_match_rows"] + 1, len(case.pats) + 1, 4), [("i", "usize")], meta, timeout=timeout,
+                   functions=["noncontiguous::State::{fail,depth} of every state"], covers_required=False)
 
 
 # --------------------------------------------------------------------------
@@ -168,6 +580,316 @@ def schedule(prop, tier, seed):
                 core = any(k in c.name for k in ("basic", "empty", "chain4", "dup"))
                 if not quick or core:
                     hs.append(h_iter2(prop, c, facts, "dfa", n=4 if quick else 6))
+            return hs
+        return cases, mk
+    if prop == "C03":
+        cases = [Case(c.name.replace("c02", "c03"), c.pats, mk="std") for c in std_core()]
+        cases += seeded_cases("c03", seed, 2 if quick else 10, "std")
+
+        def mk(facts):
+            hs = []
+            for c in cases:
+                core = any(k in c.name for k in ("basic", "empty", "dup", "chain4"))
+                hs.append(h_ov_step(prop, c, facts, "dfa", n=4 if quick else 6))
+                if not quick or core:
+                    hs.append(h_ov_first(prop, c, facts, "dfa", n=4 if quick else 6))
+                    hs.append(h_ov_drain(prop, c, facts, "dfa", n=3, kcap=10, span=not quick))
+                    if not quick:
+                        hs.append(h_ov_drain(prop, c, facts, "dfa", n=4, kcap=14, span=False, timeout=1500))
+            return hs
+        return cases, mk
+    if prop == "C09":
+        fams = [("suffix3", ["abc", "bc", "c"]), ("suffix4", ["xabc", "abc", "c"]), ("basic", ["abc", "bc", "c", "ab"]),
+                ("inherit", ["abcd", "bc"]), ("empty", ["ab", "", "b"]), ("dup", ["ab", "ab", "b"])]
+        cases = []
+        for mkk in ("std", "lf", "ll"):
+            for (nm, pats) in fams:
+                if quick and mkk == "ll" and nm not in ("suffix3", "empty"):
+                    continue
+                cases.append(Case("c09%s_%s" % (mkk, nm), pats, mk=mkk, sk="both"))
+        cases.append(Case("c09std_suffix3_an", ["abc", "bc", "c"], mk="std", sk="an"))
+        cases.append(Case("c09lf_suffix3_an", ["abc", "bc", "c"], mk="lf", sk="an"))
+        if not quick:
+            for mkk in ("std", "lf", "ll"):
+                cases += seeded_cases("c09" + mkk, seed, 6, mkk)
+
+        def mk(facts):
+            hs = []
+            for c in cases:
+                hs.append(h_find(prop, c, facts, "dfa", n=6 if quick else 8, an=AN))
+                core = any(k in c.name for k in ("suffix3", "empty", "inherit"))
+                if not quick or core:
+                    hs.append(h_iter2(prop, c, facts, "dfa", n=4 if quick else 6, an=AN))
+                if c.mk == "std" and (not quick or core):
+                    hs.append(h_ov_drain(prop, c, facts, "dfa", n=3 if quick else 4, an=AN, kcap=8, span=not quick))
+            return hs
+        return cases, mk
+    if prop == "C10":
+        cases = [Case("c10lf_basic", ["abc", "bc", "c", "ab"], mk="lf"), Case("c10ll_basic", ["abc", "bc", "c", "ab"], mk="ll"),
+                 Case("c10std_basic", ["abc", "bc", "c", "ab"], mk="std"), Case("c10lf_empty", ["ab", "", "b"], mk="lf"),
+                 Case("c10std_empty", ["", "ab"], mk="std"), Case("c10lf_long", ["abcd", "bcd", "d"], mk="lf"),
+                 Case("c10std_nobc", ["abc", "b"], mk="std", bc=False)]
+        if not quick:
+            for mkk in ("std", "lf", "ll"):
+                cases += seeded_cases("c10" + mkk, seed, 5, mkk)
+
+        def mk(facts):
+            hs = []
+            for c in cases:
+                hs.append(h_span(prop, c, facts, "dfa", n=5 if quick else 7, an=EITHER))
+                if c.mk == "std":
+                    hs.append(h_span_ov(prop, c, facts, "dfa", n=4 if quick else 5))
+            return hs
+        return cases, mk
+    if prop == "C14":
+        cases = []
+        for mkk in ("std", "lf", "ll"):
+            cases += [Case("c14%s_basic" % mkk, ["abc", "bc", "c", "ab"], mk=mkk), Case("c14%s_prefix" % mkk, ["ab", "abcd"], mk=mkk),
+                      Case("c14%s_empty" % mkk, ["abc", ""], mk=mkk), Case("c14%s_long" % mkk, ["abcd", "bc", "cd"], mk=mkk)]
+            cases += seeded_cases("c14" + mkk, seed, 1 if quick else 6, mkk)
+
+        def mk(facts):
+            return [h_ismatch(prop, c, facts, "dfa", n=6 if quick else 8, an=EITHER) for c in cases]
+        return cases, mk
+    if prop in ("C04", "C16"):
+        shapes = [("basic", ["abc", "bc", "c", "ab"]), ("chain", ["abcd", "bcd", "cd", "d"]), ("empty", ["ab", "", "b"]),
+                  ("fan5", ["a", "ab", "ac", "ad", "ae", "af"]), ("fan9", ["xa", "xb", "xc", "xd", "xe", "xf", "xg", "xh", "xi"]),
+                  ("one_match", ["ab", "abc"]), ("hi", [b"\x00\xff", b"\xff", b"\x80a"])]
+        cases = []
+        for mkk in ("std", "lf"):
+            for (nm, pats) in shapes:
+                if quick and mkk == "lf" and nm in ("fan9", "hi", "chain"):
+                    continue
+                cases.append(Case("%s%s_%s" % (prop.lower(), mkk, nm), pats, mk=mkk))
+        # configuration product on one shape
+        base = ["abc", "bc", "c", "ab"]
+        for dd in (0, 1, 16):
+            cases.append(Case("%sstd_dd%d" % (prop.lower(), dd), base, mk="std", dd=dd))
+        cases.append(Case(prop.lower() + "std_nobc", base, mk="std", bc=False))
+        cases.append(Case(prop.lower() + "lf_nobc_dd0", base, mk="lf", bc=False, dd=0))
+        cases.append(Case(prop.lower() + "std_un", base, mk="std", sk="un"))
+        cases.append(Case(prop.lower() + "lf_an", base, mk="lf", sk="an"))
+        cases.append(Case(prop.lower() + "std_ci", ["aB", "b@", "Z["], mk="std", ci=True))
+        cases.append(Case(prop.lower() + "ll_basic", base, mk="ll"))
+        if not quick:
+            for mkk in ("std", "lf", "ll"):
+                cases += seeded_cases(prop.lower() + mkk, seed, 5, mkk)
+                cases += seeded_cases(prop.lower() + mkk + "dd0", seed + 1, 2, mkk, dd=0)
+                cases += seeded_cases(prop.lower() + mkk + "ci", seed + 2, 2, mkk, ci=True)
+
+        def mk(facts):
+            hs = []
+            for c in cases:
+                f = facts[c.name]
+                hs.append(h_sim_meta(prop, c, facts))
+                big = c.dd == 0
+                for an in (UN, AN):
+                    dfa_ok = sk_allows(c, an)
+                    if dfa_ok:
+                        hs += h_sim(prop, c, facts, "cd", an, group=12)
+                        if not (quick and big and prop == "C16"):
+                            hs += h_sim(prop, c, facts, "nd", an, group=2 if big else 6,
+                                        timeout=1500 if big else 900)
+                    else:
+                        hs += h_sim(prop, c, facts, "nc", an, group=2 if big else 6, timeout=1500 if big else 900)
+                if prop == "C16" and c.sk in ("both", "un") and (not quick or "basic" in c.name or "empty" in c.name or "dd" in c.name):
+                    hs.append(h_recipe(prop, c, facts, "dfa", n=6 if quick else 8))
+            return hs
+        return cases, mk
+    if prop == "C13":
+        cases = []
+        for mkk in ("std", "lf", "ll"):
+            for sk in ("both", "un", "an"):
+                if quick and mkk == "ll" and sk != "un":
+                    continue
+                cases.append(Case("c13%s_%s" % (mkk, sk), ["ab", "b"], mk=mkk, sk=sk))
+        cases.append(Case("c13std_un_empty", ["ab", ""], mk="std", sk="un"))
+        cases.append(Case("c13lf_both_empty", ["", "ab"], mk="lf", sk="both"))
+        if not quick:
+            cases.append(Case("c13std_both_other", ["abc", "c", "ca"], mk="std", sk="both"))
+            cases.append(Case("c13lf_an_other", ["abc", "c", "ca"], mk="lf", sk="an"))
+
+        def mk(facts):
+            hs = []
+            for c in cases:
+                kinds = ["dfa", "cnfa", "nnfa"]
+                if quick and not (c.mk == "std" or c.sk == "un"):
+                    kinds = ["dfa"]
+                for kind in kinds:
+                    hs.append(h_reject_fallible(prop, c, facts, kind))
+                    if kind == "dfa" or not quick:
+                        hs.append(h_reject_sr(prop, c, facts, kind))
+                    apis = [6, 0, 1, 2, 3] if (kind == "dfa" or not quick) else [6]
+                    for api in apis:
+                        for rej in (True, False):
+                            if reject_possible(c, 0 if api == 6 else api, rej):
+                                if quick and api in (1, 3) and not rej and kind != "dfa":
+                                    continue
+                                hs.append(h_reject_infallible(prop, c, facts, kind, api, rej))
+            return hs
+        return cases, mk
+    if prop == "C05":
+        fams = [("s1", ["abc", "ab"], False), ("s2", ["zab", "zcd", "qef"], False), ("s3", ["xa", "xb", "yc", "zd"], False),
+                ("r1a", ["abc", "b"], False), ("r1b", ["abcq", "cdq", "efq", "ghq"], False), ("r2", ["az", "bz", "cq"], False),
+                ("r3", ["ab", "cd", "ef"], False), ("mm", ["foo"], False), ("r2ci", ["abc", "ab"], True),
+                ("s2ci", ["zq", "zj"], True)]
+        cases = []
+        for (nm, pats, ci) in fams:
+            for mkk in ("std", "lf"):
+                if nm in ("s3", "r3") and mkk == "lf":
+                    continue  # leftmost selects the packed prefilter for these (decided with C06)
+                if quick and mkk == "lf" and nm in ("s2", "r1a", "s2ci"):
+                    continue
+                cases.append(Case("c05%s_%s" % (mkk, nm), pats, mk=mkk, ci=ci, pf=True))
+        if not quick:
+            cases.append(Case("c05ll_r1b", ["abcq", "cdq", "efq", "ghq"], mk="ll", pf=True))
+            cases.append(Case("c05ll_s1", ["abc", "ab"], mk="ll", pf=True))
+
+        def mk(facts):
+            hs = []
+            for c in cases:
+                n = 8 if (c.maxlen >= 4 or not quick) else 7
+                h = h_find(prop, c, facts, "dfa", n=n, an=UN, timeout=1200)
+                h.stubs = list(STUB_PF)
+                h.meta["prefilter"] = facts[c.name]["prefilter"][:120]
+                hs.append(h)
+                if not quick or c.mk == "lf" or "r1b" in c.name:
+                    h = h_iter2(prop, c, facts, "dfa", n=5 if quick else 6, an=UN, timeout=1200)
+                    h.stubs = list(STUB_PF)
+                    hs.append(h)
+                if c.mk == "std" and (not quick or any(k in c.name for k in ("r1b", "s1", "r2"))):
+                    h = h_ov_step(prop, c, facts, "dfa", n=5 if quick else 6, timeout=1200)
+                    h.stubs = list(STUB_PF)
+                    hs.append(h)
+                if not quick:
+                    h = h_find(prop, c, facts, "cnfa", n=4, an=UN, timeout=1500, tag="_pf")
+                    h.stubs = list(STUB_PF)
+                    hs.append(h)
+            for h in hs:
+                h.functions = h.functions + ["Prefilter::find_in", "prefilter::{StartBytes*,RareBytes*,Memmem}::find_in",
+                                             "Candidate::into_option", "prefilter branches of try_find_fwd_imp/try_find_overlapping_fwd_imp"]
+                h.name = h.name  # names already unique per case
+            return hs
+        return cases, mk
+    if prop in ("C06", "C15"):
+        rk = [("basic", ["ab", "abc", "b"]), ("samehash", ["ab", "ba", "c`"]), ("long", ["abcd", "bcd", "cd"]),
+              ("dup", ["ab", "ab", "a"]), ("hi", [b"\xff\x00", b"\x00"])]
+        cases = []
+        for (nm, pats) in rk:
+            for mkk in ("lf", "ll"):
+                if quick and mkk == "ll" and nm not in ("basic", "long"):
+                    continue
+                cases.append(PackedCase("%s%s_rk_%s" % (prop.lower(), mkk, nm), pats, mk=mkk, force="rk"))
+        # Teddy searchers: below their minimum length find_in falls back to Rabin-Karp
+        cases.append(PackedCase(prop.lower() + "lf_t1_slow", ["a", "bc"], mk="lf", force="teddy128"))
+        tcases = [PackedCase(prop.lower() + "lf_t1", ["a", "bc"], mk="lf", force="teddy128"),
+                  PackedCase(prop.lower() + "lf_t2", ["ab", "bcd"], mk="lf", force="teddy128"),
+                  PackedCase(prop.lower() + "ll_t2", ["ab", "abc"], mk="ll", force="teddy128")]
+        if not quick:
+            tcases += [PackedCase(prop.lower() + "lf_t3", ["abc", "bcd"], mk="lf", force="teddy128"),
+                       PackedCase(prop.lower() + "lf_t1c", ["a", "q", "A"], mk="lf", force="teddy128")]
+        cases += tcases
+
+        def mk(facts):
+            hs = []
+            for c in cases:
+                f = facts[c.key]
+                if c in tcases:
+                    m = f["teddy_bytes"]
+                    length = 16 + m - 1
+                    w = min(c.maxlen + 2, 4)
+                    wins = [(length, length - w)] if quick else [(length, 0), (length, length - w), (length + 2, 14), (length + 2, length + 2 - w)]
+                    if quick and c is not tcases[0]:
+                        continue
+                    for (ln, off) in wins:
+                        hs.append(h_pk_teddy(prop, c, facts, ln, off, w, 0x5a))
+                    continue
+                n = 6 if quick else 8
+                hs.append(h_pk_find(prop, c, facts, n=n))
+                if not quick or "basic" in c.name or "long" in c.name:
+                    hs.append(h_pk_iter2(prop, c, facts, n=5 if quick else 6))
+                if prop == "C15" or not quick:
+                    hs.append(h_pk_span(prop, c, facts, n=5))
+            return hs
+        return cases, mk
+    if prop in ("C07", "C08", "C18"):
+        pl = prop.lower()
+        cases = [Case(pl + "_basic", ["abc", "bc", "c", "ab"], mk="std", sk="un"), Case(pl + "_two", ["ab", "b"], mk="std", sk="un"),
+                 Case(pl + "_aab", ["aab", "ab"], mk="std", sk="un")]
+        if not quick:
+            cases += [Case(pl + "_ci", ["aB", "b"], mk="std", sk="un", ci=True), Case(pl + "_long", ["abcd", "cd", "d"], mk="std", sk="un")]
+
+        def mk(facts):
+            hs = []
+            for c in cases:
+                core = "basic" in c.name or "two" in c.name
+                if prop in ("C07", "C08"):
+                    for spare in ((1, 2) if (core or not quick) else (1,)):
+                        hs.append(h_stream_step(prop, c, facts, "dfa", t=c.maxlen + spare + 2, spare=spare))
+                    if not quick:
+                        hs.append(h_stream_step(prop, c, facts, "dfa", t=c.maxlen + 5, spare=3, timeout=2400))
+                        hs.append(h_stream_step(prop, c, facts, "cnfa", t=c.maxlen + 2, spare=1, timeout=2400))
+                if prop == "C07" and (core or not quick):
+                    hs.append(h_stream_run(prop, c, facts, "dfa", t=3))
+                if prop == "C08" and (core or not quick):
+                    hs.append(h_stream_replace(prop, c, facts, "dfa", t=2 if quick else 3))
+                if prop == "C18":
+                    hs.append(h_stream_step(prop, c, facts, "dfa", t=c.maxlen + 3, spare=1, fault=True))
+                    if core or not quick:
+                        hs.append(h_stream_replace(prop, c, facts, "dfa", t=2 if quick else 3, wfault=True))
+            return hs
+        return cases, mk
+    if prop == "C12":
+        cases = [Case("c12std_two", ["ab", "b"], mk="std"), Case("c12lf_two", ["ab", "a"], mk="lf"),
+                 Case("c12lf_empty", ["a", ""], mk="lf"), Case("c12std_split", [b"\xc3", "a"], mk="std"),
+                 Case("c12lf_split", [b"\xa9", b"\xc3\xa9x"], mk="lf")]
+
+        def mk(facts):
+            hs = []
+            for c in cases:
+                if "split" not in c.name:
+                    hs.append(h_replace_bytes(prop, c, facts, "dfa", n=2 if quick else 3))
+                if "split" in c.name or "empty" in c.name:
+                    hs.append(h_replace_str(prop, c, facts, "dfa", n=2 if quick else 3))
+            return hs
+        return cases, mk
+    if prop == "C17":
+        cases = [Case("c17std_basic", ["abc", "bc", "c", "ab"], mk="std"), Case("c17lf_basic", ["abc", "bc", "c", "ab"], mk="lf"),
+                 Case("c17lf_pf", ["abc", "b"], mk="lf", pf=True)]
+
+        def mk(facts):
+            hs = []
+            for c in cases:
+                h = h_purity(prop, c, facts, "dfa", n=4 if quick else 5)
+                if c.pf:
+                    h.stubs = list(STUB_PF)
+                hs.append(h)
+                if not quick and not c.pf:
+                    hs.append(h_purity(prop, c, facts, "cnfa", n=3))
+            return hs
+        return cases, mk
+    if prop == "C19":
+        fam = [("akb", ["aaab", "aab", "ab", "b"]), ("nest", ["abcd", "bcd", "cd", "d"]), ("basic", ["abc", "bc", "c", "ab"])]
+        cases = []
+        for mkk in ("std", "lf"):
+            for (nm, pats) in fam:
+                if quick and mkk == "lf" and nm != "akb":
+                    continue
+                cases.append(Case("c19%s_%s" % (mkk, nm), pats, mk=mkk))
+        cases.append(Case("c19std_ci", ["aAb", "ab"], mk="std", ci=True))
+        cases.append(Case("c19lf_pf", ["abcq", "cdq"], mk="lf", pf=True))
+
+        def mk(facts):
+            hs = []
+            for c in cases:
+                h = h_work(prop, c, facts, "dfa", n=6 if quick else 8, an=UN if c.pf else EITHER)
+                if c.pf:
+                    h.stubs = list(STUB_PF)
+                hs.append(h)
+                hs.append(h_fail_depth(prop, c, facts))
+                if not c.pf and ("akb" in c.name or not quick):
+                    hs.append(h_work(prop, c, facts, "cnfa", n=3, an=EITHER, timeout=1800))
+                    hs.append(h_work(prop, c, facts, "nnfa", n=3 if not quick else 2, an=EITHER, timeout=1800))
             return hs
         return cases, mk
     raise KeyError(prop)
